@@ -57,6 +57,19 @@ def rat(x, point):
     return None
 
 
+def crat(x, point):
+    """exact Gaussian-rational value: ['p/q', 'p/q'] (re, im) or None"""
+    x = sp.sympify(getattr(x, 'sympy', x))
+    sub = {sy: point[sy.name] for sy in x.free_symbols if sy.name in point}
+    x = sp.simplify(x.subs(sub))
+    if x.has(sp.zoo) or x.has(sp.nan):
+        return None
+    re_, im_ = sp.nsimplify(sp.re(x)), sp.nsimplify(sp.im(x))
+    if re_.is_Rational and im_.is_Rational:
+        return ['%d/%d' % (re_.p, re_.q), '%d/%d' % (im_.p, im_.q)]
+    return None
+
+
 def sup(x, point):
     """Superposition / expression -> rational value of its Laplace transform at the point"""
     if hasattr(x, 'laplace'):
@@ -120,6 +133,14 @@ def run_oneport(case):
         if 'alg' in want:
             res['alg'] = four({'Z': lambda: rat(net.Z, point), 'Y': lambda: rat(net.Y, point),
                                'Voc': lambda: sup(net.Voc, point), 'Isc': lambda: sup(net.Isc, point)}, point)
+        if 'ac' in case:
+            # phasor-domain immittances at j omega, and the Laplace transforms of Voc / Isc at a second point
+            # (the harness recovers the phasor a + j b of a cos(wt) - b sin(wt) from two exact values)
+            from lcapy import j as jj
+            w_ = sp.Rational(case['ac']['omega'])
+            p1 = dict(point, s=sp.Rational(case['ac']['s1']))
+            res['ac'] = four({'Z': lambda: crat(net.Z(jj * w_), point), 'Y': lambda: crat(net.Y(jj * w_), point),
+                              'Voc2': lambda: sup(net.Voc, p1), 'Isc2': lambda: sup(net.Isc, p1)}, point)
         if 'netlist' in want:
             try:
                 res['netlist'] = parse_netlist(net.netlist())
@@ -218,8 +239,79 @@ def run_ctor(case):
     return {'mat': mat(m, point), 'cls': type(m).__name__}
 
 
+SRC_PROPS = ['V2b', 'I2b', 'V1a', 'I1a', 'I1g', 'V2g', 'V1h', 'I2h', 'I1y', 'I2y', 'V1z', 'V2z']
+
+
+def src_values(tp, point):
+    out = {}
+    for q in SRC_PROPS:
+        try:
+            out[q] = rat(getattr(tp, q), point)
+        except CaseTimeout:
+            raise
+        except Exception as e:
+            out[q] = {'error': type(e).__name__ + ': ' + str(e)[:80]}
+    return out
+
+
+def run_twoport_src(case):
+    """two-port built from one-ports WITH sources: the source vectors of the algebra, and the same
+    quantities measured on the emitted netlist (ports 1-0 and 3-2 open / shorted as the definitions say)"""
+    point = {'s': sp.Rational(case['s0'])}
+    res = {}
+    buf = io.StringIO()
+    with contextlib.redirect_stdout(buf):
+        tp = build2(case['tp'])
+        res['alg'] = src_values(tp, point)
+        try:
+            res['alg']['B'] = mat(tp.Bparams, point)
+        except Exception as e:
+            res['alg']['B'] = {'error': type(e).__name__}
+        if 'net' in case.get('want', ['net']):
+            nl = tp.netlist()
+
+            def mk(extra=()):
+                c = Circuit()
+                for line in nl.split('\n'):
+                    c.add(line)
+                for line in extra:
+                    c.add(line)
+                return c
+            meas = {'V1z': lambda: mk().Voc(1, 0), 'V2z': lambda: mk().Voc(3, 2),
+                    'I1y': lambda: -mk(['W 3 2']).Isc(1, 0), 'I2y': lambda: -mk(['W 1 0']).Isc(3, 2),
+                    'V1h': lambda: mk(['W 3 2']).Voc(1, 0), 'I2h': lambda: -mk().Isc(3, 2),
+                    'I1g': lambda: -mk().Isc(1, 0), 'V2g': lambda: mk(['W 1 0']).Voc(3, 2)}
+            res['net'] = {}
+            for q, f in meas.items():
+                if q not in case.get('netq', list(meas)):
+                    continue
+                try:
+                    res['net'][q] = sup(f(), point)
+                except CaseTimeout:
+                    raise
+                except Exception as e:
+                    res['net'][q] = {'error': type(e).__name__ + ': ' + str(e)[:80]}
+    return res
+
+
+def run_srcunit(case):
+    """a two-port model class built from a numeric matrix and two sources: every source property it offers"""
+    point = {'s': sp.Rational(case['s0'])}
+    X = case['kind']
+    m = [sp.Rational(x) for x in case['m']]
+    M = getattr(TP, X + 'Matrix')(((m[0], m[1]), (m[2], m[3])))
+    own = {'B': ('V2b', 'I2b'), 'A': ('V1a', 'I1a'), 'G': ('I1g', 'V2g'), 'H': ('V1h', 'I2h'), 'Y': ('I1y', 'I2y'), 'Z': ('V1z', 'V2z')}[X]
+    kw = {own[0]: sp.Rational(case['src'][0]), own[1]: sp.Rational(case['src'][1])}
+    tp = getattr(TP, 'TwoPort%sModel' % X)(M, **kw)
+    return {'alg': src_values(tp, point), 'cls': type(tp).__name__}
+
+
 def run(case):
     m = case.get('mode', 'oneport')
+    if m == 'twoport_src':
+        return run_twoport_src(case)
+    if m == 'srcunit':
+        return run_srcunit(case)
     if m == 'oneport':
         return run_oneport(case)
     if m == 'twoport':
